@@ -1,4 +1,6 @@
 import RpmVerif.Lemmas.Cpio
+import RpmVerif.Lemmas.FileIter
+import RpmVerif.Lemmas.PayloadWriter
 /-!
 # C07 — payload iteration returns every file's exact content under its own metadata
 
@@ -22,6 +24,17 @@ empty files, any NUL-free UTF-8 name whose length is below 4096):
   hypothesis (first file of that path); `unknown_entry_is_error`: an entry designating no header file is an
   error item, never an `ok` one.  `foreign_archive_pairing`: written archives in ANY order / with ANY files
   left out come back entry by entry under the right index.  `builder_pairing`: the library's own archives.
+* `next_none_after_n`, `items_le_entries`, `iterate_terminates` — `FileIterator::next` as a state machine over an
+  ARBITRARY stream behaviour (Model/FileIter.lean): `count += 1` precedes the read, so whatever the stream does —
+  also after an error item, whose stream position is undefined — at most `file_entries.len()` items come out and a
+  `collect()` ends; `iterateE_is_prefix`: the `iterateE` of the theorems above is exactly the items up to the first
+  error, for every stream position an error may leave; `after_error_*_witness`: what the code does after an error.
+* `prepare_data_invariant`, `standard_mode_sizes_fit_u32`, `writer_eq_writeEntry`, `builder_archive_writer` —
+  `payload::Writer` as a state machine with its `UnexpectedEof` / `u32`-overflow / short-write branches
+  (Model/PayloadWriter.lean): along the builder's `write_all` of a content of exactly the announced size none of
+  them is reachable, for EVERY behaviour of the inner sink, and an `Ok` run emits exactly `writeEntry`;
+  `short_write_unpadded_witness`, `excess_write_refused_witness`, `full_writer_overflows`,
+  `cast_truncation_accepts_excess` document the branches the builder cannot reach.
 * `old_position_pairing_*` — the iterator before the fix (`iterateEOld`, pairing by POSITION) kept as proved
   negative witnesses: an archive omitting a `%ghost` file, a reordered archive.
 -/
@@ -482,6 +495,292 @@ theorem sorted_nodup {l : List FileIn} (h : SortedByPath l) : (l.map (·.path)).
   intro a b hab heq
   rw [heq, bytesLt_irrefl] at hab
   cases hab
+
+/-! ## the iterator as a state machine: what `next()` answers AFTER an error item (Model/FileIter.lean)
+
+`FileIterator::next` is neither fused nor stopped by an error.  The theorems of this section hold for every stream
+state type `σ` and every `step : σ → Step σ`, i.e. for every behaviour of the `Box<dyn Read>` behind the iterator
+(an in-memory cursor, a decompressor inside a damaged frame, a stream whose position after an error is arbitrary). -/
+
+section StateMachine
+open RpmVerif.FileIter
+
+/-- **next_none_after_n** — once `count` has reached `file_entries.len()` the iterator answers `None` and does not
+touch the stream any more -/
+theorem next_none_after_n {σ : Type} (step : σ → Step σ) (n : Nat) (st : St σ) (h : st.count ≥ n) :
+    next step n st = (none, st) :=
+  next_of_ge step n st h
+
+example : next (stepMem [[47, 97]] [1]) 1 ⟨1, [1, 2, 3]⟩ = (none, ⟨1, [1, 2, 3]⟩) := rfl
+
+/-- **items_le_entries** — for EVERY stream behaviour: a consumer that pulls until the first `None` (`for`,
+`collect()`, `count()`, at most `fuel` pulls) sees at most `file_entries.len() - count` items, errors included;
+and a consumer that keeps calling `next()` after a `None` gets at most that many `Some(_)` answers in ANY number
+`k` of calls (this is what `count += 1` BEFORE the read buys: seeds C04-4 / C04-8 moved it behind the read) -/
+theorem items_le_entries {σ : Type} (step : σ → Step σ) (n : Nat) (st : St σ) :
+    (∀ fuel, (drain step n fuel st).length ≤ n - st.count)
+    ∧ (∀ k, ((answers step n k st).filter Option.isSome).length ≤ n - st.count) :=
+  ⟨fun fuel => drain_length step n fuel st, fun k => answers_some_le step n k st⟩
+
+/-- a fresh `files()` iterator: `collect()` returns at most `file_entries.len()` items -/
+theorem collect_le_entries {σ : Type} (step : σ → Step σ) (n : Nat) (s : σ) : (collect step n s).length ≤ n :=
+  drain_length step n (n + 1) ⟨0, s⟩
+
+/-- the bound is attained, and attained by errors: a header with three files over an empty payload makes
+`collect()` return three error items -/
+example : collectMem [] [[47, 97], [47, 98], [47, 99]] [1, 1, 1] = [.err "eof", .err "eof", .err "eof"] := by decide +kernel
+
+/-- **iterate_terminates** — for EVERY stream behaviour the loop `while let Some(x) = it.next()` ends: more than
+`file_entries.len() - count` pulls change nothing (so `collect`'s `n + 1` pulls see the whole iteration), and after
+that many calls every further call answers `None` -/
+theorem iterate_terminates {σ : Type} (step : σ → Step σ) (n : Nat) (st : St σ) :
+    (∀ fuel, n - st.count ≤ fuel → drain step n fuel st = drain step n (n - st.count) st)
+    ∧ (∀ k, n - st.count ≤ k → (next step n (stateAfter step n k st)).1 = none) := by
+  refine ⟨fun fuel hf => drain_fuel step n fuel st hf, fun k hk => ?_⟩
+  have := stateAfter_count_ge step n k st (by omega)
+  rw [next_of_ge step n _ this]
+
+example : drain (stepMem [] []) 2 7 ⟨0, [9, 9]⟩ = drain (stepMem [] []) 2 2 ⟨0, [9, 9]⟩
+    ∧ drain (stepMem [] []) 2 2 ⟨0, [9, 9]⟩ = [.err "eof", .err "eof"] := by decide +kernel
+
+/-- **iterateE_is_prefix** — `Cpio.iterateE` (the iterator of all pairing / round-trip theorems above, which ends
+its list at the first error) is exactly what a `collect()` of the real iteration shows up to and including the
+first error item — whatever position `after` the stream is left at by an error (`stepAfter`), in particular for the
+positions the in-memory stream really has (`stepMem`, `after = id`) -/
+theorem iterateE_is_prefix (after : Bytes → Bytes) (paths : List Bytes) (sizes : List Nat) (archive : Bytes) :
+    uptoErr (collect (stepAfter after paths sizes) sizes.length archive) = iterateE paths sizes sizes.length archive := by
+  unfold collect
+  rw [drain_fuel _ _ _ _ (by simp)]
+  exact iterateE_is_prefix_gen after paths sizes sizes.length sizes.length 0 archive (by omega)
+
+theorem iterateE_is_prefix_mem (paths : List Bytes) (sizes : List Nat) (archive : Bytes) :
+    uptoErr (collectMem archive paths sizes) = iterateE paths sizes sizes.length archive := by
+  have := iterateE_is_prefix id paths sizes archive
+  rw [stepAfter_id] at this
+  exact this
+
+/-- no error item in `iterateE` (every archive the builder writes: `cpio_roundtrip`, `foreign_archive_pairing`):
+then `collect()` returns exactly the items of `iterateE` — nothing comes after them -/
+theorem collect_eq_iterateE_of_no_error (paths : List Bytes) (sizes : List Nat) (archive : Bytes)
+    (h : ∀ o ∈ iterateE paths sizes sizes.length archive, o.isOk = true) :
+    collectMem archive paths sizes = iterateE paths sizes sizes.length archive := by
+  have hp := iterateE_is_prefix_mem paths sizes archive
+  rw [← hp] at h
+  rw [← hp, uptoErr_all_ok_iff _ h]
+
+example : collectMem (archiveOf [({ name := [46, 47, 97], ino := 1, mode := 33188 }, [65])]) [[47, 97]] [1]
+    = [.ok (0, .cpio ⟨false, [46, 47, 97], 1, 33188, 0, 0, 1, 0, 1, 0, 0, 0, 0, 0⟩, [65])] := by decide +kernel
+
+/-- on a stream that is used up every remaining call is an `UnexpectedEof` item: a payload cut anywhere makes
+`collect()` return one error per header file that is left -/
+theorem drained_stream_only_errors (paths : List Bytes) (sizes : List Nat) (n fuel c : Nat) :
+    drain (stepMem paths sizes) n fuel ⟨c, []⟩ = List.replicate (min fuel (n - c)) (.err "eof") :=
+  drain_nil paths sizes n fuel c
+
+/-- **after_error_keeps_answering_witness** — the archive ends inside the second of three files: `iterateE` (and a
+consumer using `?`) stops at the error, `collect()` gets a second error item for the third header file -/
+theorem after_error_keeps_answering_witness :
+    let archive := writeEntry { name := [46, 47, 97], ino := 1, mode := 33188 } [65]
+                   ++ (writeEntry { name := [46, 47, 98], ino := 2, mode := 33188 } [66, 66, 66, 66]).dropLast
+    (iterate archive [[47, 97], [47, 98], [47, 99]] [1, 4, 0] = [.ok (0, [65]), .err "eof"])
+    ∧ (collectMem archive [[47, 97], [47, 98], [47, 99]] [1, 4, 0]).map (Out.map fun x => (x.1, x.2.2))
+        = [.ok (0, [65]), .err "eof", .err "eof"] := by
+  decide +kernel
+
+/-- **after_error_resumes_witness** — an entry that names no file of the header is an error item that leaves the
+stream behind the entry's header; its data is empty here, so the next call finds the next entry and hands out an
+`Ok` item AFTER the error (then `count` has reached the two header files and the trailer is never read) -/
+theorem after_error_resumes_witness :
+    let archive := archiveOf [({ name := [46, 47, 120], ino := 1, mode := 33188 }, []),
+                              ({ name := [46, 47, 97], ino := 2, mode := 33188 }, [65])]
+    (iterate archive [[47, 97], [47, 103]] [1, 0] = [.err "no-such-file"])
+    ∧ (collectMem archive [[47, 97], [47, 103]] [1, 0]).map (Out.map fun x => (x.1, x.2.2))
+        = [.err "no-such-file", .ok (0, [65])] := by
+  decide +kernel
+
+/-- the iterator is not fused: after the `None` of a trailer a further call reads on behind the trailer's header -/
+theorem not_fused_witness :
+    answers (stepMem [[47, 97], [47, 98]] [1, 1]) 2 3 ⟨0, trailer ++ writeEntry { name := [46, 47, 97] } [65]⟩
+      = [none, some (.ok (0, .cpio ⟨false, [46, 47, 97], 0, 0, 0, 0, 1, 0, 1, 0, 0, 0, 0, 0⟩, [65])), none] := by
+  decide +kernel
+
+end StateMachine
+
+/-! ## `payload::Writer` as a state machine (Model/PayloadWriter.lean)
+
+The inner sink is an arbitrary response script (short writes, `Interrupted`, hard errors, a failing `flush`); all
+theorems quantify over it. -/
+
+section WriterMachine
+open RpmVerif.PWriter
+
+/-- **prepare_data_invariant** — a `Writer` that has exactly `buf` left to take (`written + buf.len() == file_size`,
+`file_size <= u32::MAX`): the call `write(buf)` passes the guard `written + buf.len() as u32 <= file_size` without
+overflow, does not return `UnexpectedEof`, and leaves the `Writer` with exactly the rest of `buf` to take (after
+`Ok(n)`: `buf[n..]`; after `Interrupted`: `buf` again) — so the invariant holds along the whole `write_all(buf)`,
+which for EVERY sink behaviour ends without panic, without the `Writer`'s `UnexpectedEof` (and without running out
+of the model's fuel), and if `Ok` with `written == file_size`, the state in which `finish` pads. -/
+theorem prepare_data_invariant (w : Writer) (buf : Bytes)
+    (hinv : w.written + buf.length = w.fileSize) (hfs : w.fileSize ≤ 4294967295) :
+    ((∀ p, (w.write buf).1 ≠ .panic p) ∧ (w.write buf).1 ≠ .err "unexpected-eof"
+      ∧ (∀ n, (w.write buf).1 = .ok n →
+          n ≤ buf.length ∧ (w.write buf).2.written + (buf.drop n).length = (w.write buf).2.fileSize
+          ∧ (w.write buf).2.fileSize = w.fileSize)
+      ∧ ((w.write buf).1 = .err "interrupted" →
+          (w.write buf).2.written + buf.length = (w.write buf).2.fileSize ∧ (w.write buf).2.fileSize = w.fileSize))
+    ∧ ((∀ p, (w.writeAll buf).1 ≠ .panic p) ∧ (w.writeAll buf).1 ≠ .err "unexpected-eof"
+      ∧ (w.writeAll buf).1 ≠ .err "fuel"
+      ∧ ((w.writeAll buf).1 = .ok () → (w.writeAll buf).2.written = (w.writeAll buf).2.fileSize)) := by
+  have hfs' : w.fileSize < 4294967296 := by omega
+  constructor
+  · obtain ⟨h1, _, _, _, _, h6⟩ := Writer.write_spec w buf hinv hfs'
+    rcases h6 with ⟨n, e1, e2, e3, _, _, _⟩ | ⟨e1, e3, _⟩ | e1 | e1
+    · rw [e1]
+      refine ⟨fun p h => (by cases h), fun h => (by cases h), fun k hk => ?_, fun h => (by cases h)⟩
+      cases hk
+      exact ⟨e2, by rw [e3, h1, List.length_drop]; omega, h1⟩
+    · rw [e1]
+      refine ⟨fun p h => (by cases h), (by simp), fun k hk => (by cases hk), fun _ => ?_⟩
+      exact ⟨by rw [e3, h1]; exact hinv, h1⟩
+    · rw [e1]
+      exact ⟨fun p h => (by cases h), (by simp), fun k hk => (by cases hk), fun h => (by simp at h)⟩
+    · rw [e1]
+      exact ⟨fun p h => (by cases h), (by simp), fun k hk => (by cases hk), fun h => (by simp at h)⟩
+  · obtain ⟨_, _, _, h4, _, h6⟩ := Writer.writeAll_spec w buf hinv hfs'
+    rcases h6 with ⟨e1, e2, _⟩ | e1 | e1
+    · rw [e1]
+      exact ⟨fun p h => (by cases h), fun h => (by cases h), fun h => (by cases h), fun _ => (by rw [e2, h4])⟩
+    · rw [e1]
+      exact ⟨fun p h => (by cases h), (by simp), (by simp), fun h => (by cases h)⟩
+    · rw [e1]
+      exact ⟨fun p h => (by cases h), (by simp), (by simp), fun h => (by cases h)⟩
+
+/-- the hypotheses of `prepare_data_invariant` hold for the `Writer` the builder makes for a content that fits a
+`u32` (`write_cpio(&mut archive, content.len() as u32)` followed by `write_all(&content)`) -/
+theorem builder_writer_announces_content (m : EntryMeta) (content : Bytes) (check : Option Nat) (s : Sink)
+    (hc : content.length ≤ 4294967295) :
+    (Writer.new m (content.length % 4294967296) check s).written + content.length
+      = (Writer.new m (content.length % 4294967296) check s).fileSize
+    ∧ (Writer.new m (content.length % 4294967296) check s).fileSize ≤ 4294967295 := by
+  rw [Nat.mod_eq_of_lt (by omega)]
+  exact ⟨by simp [Writer.new], hc⟩
+
+example : (Writer.new { name := [46, 47, 97] } 3 none {}).written + [7, 8, 9].length
+    = (Writer.new { name := [46, 47, 97] } 3 none {}).fileSize := rfl
+
+/-- **standard_mode_sizes_fit_u32** — the connection to the builder's large-file switch: the `Writer` is only used
+when `combined_file_sizes > u32::MAX` is false, and then every single content fits a `u32`, so `content.len() as u32`
+is exact and `builder_writer_announces_content` applies to every file of the loop -/
+theorem standard_mode_sizes_fit_u32 (files : List FileIn) (h : usesLargeFiles files = false) :
+    ∀ f ∈ files, f.content.length ≤ 4294967295 := by
+  intro f hf
+  have h1 : f.content.length ∈ files.map (·.content.length) := List.mem_map.mpr ⟨f, hf, rfl⟩
+  have h2 := sum_le_of_mem h1
+  unfold usesLargeFiles at h
+  have h3 : ¬ ((files.map (·.content.length)).sum > 4294967295) := by simpa using h
+  omega
+
+example : usesLargeFiles [⟨[46, 47, 97], 33188, [1, 2, 3]⟩, ⟨[46, 47, 98], 33188, []⟩] = false := by decide
+
+/-- **writer_eq_writeEntry** — one file through the state machine (`write_cpio`, `write_all`, `finish`), content
+fitting a `u32`, EVERY sink: the outcome is `Ok` or an error of the sink (never a panic, never `UnexpectedEof`); when
+`Ok`, exactly `Cpio.writeEntry` — header, content, padding — went out (the model of all theorems above); a sink that
+accepts everything gives `Ok` -/
+theorem writer_eq_writeEntry (m : EntryMeta) (content : Bytes) (s : Sink) (hc : content.length ≤ 4294967295) :
+    (((entryW m content s).1 = .ok () ∧ (entryW m content s).2.out = s.out ++ writeEntry m content)
+       ∨ (entryW m content s).1 = .err "io" ∨ (entryW m content s).1 = .err "write-zero")
+    ∧ (s.script = [] → s.flushFails = false → (entryW m content s).1 = .ok ()) := by
+  obtain ⟨_, _, h3, h4⟩ := entryW_spec m content s (by omega)
+  exact ⟨h4, h3⟩
+
+example : entryW { name := [46, 47, 97], ino := 1, mode := 33188 } [65, 66, 67] {}
+    = (.ok (), { out := writeEntry { name := [46, 47, 97], ino := 1, mode := 33188 } [65, 66, 67] }) := by decide +kernel
+/-- a sink that takes one byte per call, is interrupted once and fails at the end: an error, not a panic -/
+example : (entryW { name := [46] } [65, 66] { script := [.ok 1, .intr, .ok 200, .ok 1, .fail] }).1 = .err "io" := by
+  decide +kernel
+
+/-- **builder_archive_writer** — the standard-mode loop of `prepare_data` plus `payload::trailer` run through the
+`Writer` state machine, for a file list that does not trip the large-file switch: `Ok` means the archive is exactly
+`builderArchive` (the archive of `files_of_build`, `builder_pairing`, C09's `payload_valid_std`); into a `Vec` (a sink
+that accepts everything) the outcome IS `Ok` -/
+theorem builder_archive_writer (uid gid : Nat) (files : List FileIn) (h : usesLargeFiles files = false) (s : Sink) :
+    (((builderArchiveW uid gid files s).1 = .ok ()
+        ∧ (builderArchiveW uid gid files s).2.out = s.out ++ builderArchive uid gid files)
+       ∨ (builderArchiveW uid gid files s).1 = .err "io" ∨ (builderArchiveW uid gid files s).1 = .err "write-zero")
+    ∧ builderArchiveW uid gid files {} = (.ok (), { out := builderArchive uid gid files }) := by
+  have hes : ∀ x ∈ builderEntriesFrom uid gid 1 files, x.2.length < 4294967296 := by
+    intro x hx
+    obtain ⟨f, hf, e⟩ := builderEntriesFrom_content uid gid files 1 x hx
+    have := standard_mode_sizes_fit_u32 files h f hf
+    rw [e]; omega
+  constructor
+  · exact (entriesW_spec _ hes s).2.2.2
+  · obtain ⟨h1, h2, h3, h4⟩ := entriesW_spec _ hes {}
+    have hok := h3 rfl rfl
+    rcases h4 with ⟨_, e2⟩ | e1
+    · unfold builderArchiveW
+      rcases hr : entriesW (builderEntriesFrom uid gid 1 files) {} with ⟨o, r⟩
+      rw [hr] at h1 h2 hok e2
+      simp only at h1 h2 hok e2
+      subst hok
+      have := sink_eta r {} _ e2 h1 h2 rfl
+      rw [this]
+      simp [builderArchive]
+    · rw [hok] at e1; rcases e1 with e1 | e1 <;> cases e1
+
+example : (builderArchiveW 0 0 [⟨[46, 47, 97], 33188, [1, 2, 3]⟩, ⟨[46, 47, 98], 33261, []⟩] {}).2.out
+    = builderArchive 0 0 [⟨[46, 47, 97], 33188, [1, 2, 3]⟩, ⟨[46, 47, 98], 33261, []⟩] := by decide +kernel
+
+/-- **short_write_unpadded_witness** — the silent branch of `do_finish`: 5 bytes announced, 3 written; `write_all` and
+`finish` both return `Ok`, the entry ends after the 3 bytes without padding (119 bytes: the next entry would start
+off the 4-byte grid) while its header still says 5.  Not reachable from `prepare_data` (`prepare_data_invariant`). -/
+theorem short_write_unpadded_witness :
+    let w := Writer.new { name := [46, 47, 97] } 5 none {}
+    (w.writeAll [1, 2, 3]).1 = .ok ()
+    ∧ (w.writeAll [1, 2, 3]).2.finish = (.ok (), { out := intoHeader { name := [46, 47, 97] } 5 none ++ [1, 2, 3] })
+    ∧ (intoHeader { name := [46, 47, 97] } 5 none ++ [1, 2, 3]).length = 119 := by
+  decide +kernel
+
+/-- the general form of the silent branch: whenever fewer (or, after an overflow-free excess, other) bytes than
+announced were written, `finish` emits the pending header and nothing else, and does not fail for that reason -/
+theorem finish_unpadded_when_short (w : Writer) (h : w.written ≠ w.fileSize) :
+    (w.finish.1 = .ok () ∧ w.finish.2.out = w.inner.out ++ w.header)
+    ∨ w.finish.1 = .err "io" ∨ w.finish.1 = .err "write-zero" := by
+  obtain ⟨_, _, _, h4⟩ := Writer.finish_spec w
+  rcases h4 with ⟨e1, e2⟩ | e1
+  · left; refine ⟨e1, ?_⟩
+    rw [e2, if_neg h]; simp [pendingOut]
+  · right; exact e1
+
+/-- **excess_write_refused_witness** — more than announced: the whole `write` is refused with `UnexpectedEof` and
+nothing goes out, not even the header; `write_all` stops there -/
+theorem excess_write_refused_witness :
+    let w := Writer.new { name := [46, 47, 97] } 2 none {}
+    w.write [1, 2, 3] = (.err "unexpected-eof", w) ∧ w.writeAll [1, 2, 3] = (.err "unexpected-eof", w) :=
+  ⟨rfl, rfl⟩
+
+/-- **full_writer_overflows** — the `u32` addition of the guard: a `Writer` that has taken `u32::MAX` bytes answers a
+further non-empty `write` not with `UnexpectedEof` but with an arithmetic overflow (a panic under
+`overflow-checks`; a release build wraps to 0 and passes the guard).  The state is reachable only after 4 GiB − 1
+bytes went through one `Writer`; `prepare_data` never makes a second call after the announced size is reached. -/
+theorem full_writer_overflows (w : Writer) (h : w.written = 4294967295) (b : UInt8) :
+    (w.write [b]).1 = .panic "u32-overflow" := by
+  unfold Writer.write u32Add
+  rw [h]; rfl
+
+example : ((⟨{}, 4294967295, 4294967295, 116, []⟩ : Writer).write [7]).1 = .panic "u32-overflow" := rfl
+
+/-- **cast_truncation_accepts_excess** — `buf.len() as u32` truncates: a buffer of exactly 2^32 bytes counts as 0, so
+a `Writer` that is already full (`written == file_size`) passes it on to the sink and reports `Ok(2^32)` with
+`written` unchanged.  Needs a single 4 GiB buffer; the builder hands over `content` of the announced size
+(`standard_mode_sizes_fit_u32`: below 2^32 in standard mode). -/
+theorem cast_truncation_accepts_excess (w : Writer) (buf : Bytes) (hb : buf.length = 4294967296)
+    (hh : w.header = []) (hs : w.inner.script = []) (hw : w.written ≤ w.fileSize) (hlt : w.written < 4294967296) :
+    w.write buf = (.ok 4294967296, { w with inner := { w.inner with out := w.inner.out ++ buf } }) := by
+  unfold Writer.write u32Add Writer.tryWriteHeader Sink.write
+  simp [hb, hh, hs, hw, hlt]
+
+end WriterMachine
 
 /-! ## non-vacuity -/
 
